@@ -493,9 +493,9 @@ func Main(id string, scenarios []Scenario, what string) {
 		r.Fault("unknown Scenario %q", d.Scenario)
 	}
 	// bounds explored completely / with an execution budget
-	full := r.Pick(2, 3)
-	top := r.Pick(2, 4)
-	budget := int64(r.Pick(0, 1000000))
+	full := r.Pick(2, 2)
+	top := r.Pick(2, 3)
+	budget := int64(r.Pick(0, 400000)) // per scenario and canonical order
 	if v := os.Getenv("VERIF_FULL"); v != "" {
 		fmt.Sscan(v, &full)
 	}
